@@ -223,6 +223,13 @@ namespace cs
                     if (served->align < r.align)
                         violate("C09", "under_aligned", "requested alignment %zu, leaf %d was asked for %zu",
                                 r.align, served->leaf, served->align);
+                    // leaf 0 of the compositions with an aligned_allocator sits under it: whatever the caller asks for,
+                    // the leaf is asked for at least the minimum alignment
+                    if (served->leaf == 0 && comp->name.find("aligned") != std::string::npos
+                        && served->align < env.min_align)
+                        violate("C09,C02", "under_aligned", "aligned_allocator with minimum alignment %zu asked its "
+                                                            "allocator for alignment %zu (%s of %zu x %zu)",
+                                env.min_align, served->align, r.array ? "array" : "node", r.count, r.size);
                     if (reinterpret_cast<std::uintptr_t>(p) % r.align)
                         violate("C09,C02", "misaligned", "pointer not aligned to %zu", r.align);
                     if (served->leaf > 0)
@@ -261,6 +268,7 @@ namespace cs
                     env.min_align   = std::size_t(1) << (std::size_t(o.arg(0)) % 7);
                     env.th1         = 8 + std::size_t(o.arg(1)) % 300;
                     std::unique_ptr<Comp> other(it->second(env));
+                    auto others_align = env.min_align;
                     env.min_align = keep_align;
                     env.th1       = keep_th;
                     std::vector<Rec> moved;
@@ -293,6 +301,7 @@ namespace cs
                     if (comp->move_assign_from(*other))
                     {
                         stats().hit("reach.composition_move_assigned");
+                        env.min_align = others_align; // (the knobs travel with the assignment)
                         for (auto& m : moved)
                             live.push_back(m);
                         other.reset(); // the moved-from instance goes away
